@@ -1,9 +1,9 @@
 #!/usr/bin/env python3
 import json, sys
-pid=sys.argv[1]; n=sys.argv[2] if len(sys.argv)>2 else "2"
+pid=sys.argv[1]; n=sys.argv[2] if len(sys.argv)>2 else "2"; tag=sys.argv[3] if len(sys.argv)>3 else ""
 for l in open('/verif/properties.jsonl'):
     p=json.loads(l)
     if p['id']==pid: break
 s=open('/verif/tools/refactor_prompt.md').read()
-wt='/tmp/ref-%s'%pid; out='/tmp/ref-%s-out'%pid
+wt='/tmp/ref-%s%s'%(pid,tag); out='/tmp/ref-%s%s-out'%(pid,tag)
 print(s.replace('{WT}',wt).replace('{OUT}',out).replace('{TITLE}',p['title']).replace('{STATEMENT}',p['statement']).replace('{QUANT}',p['quantifier']['text']).replace('{FILES}',', '.join(p['anchors']['files'])).replace('{N}',n))
